@@ -301,6 +301,9 @@ def jobs_for_case(ctx, c, space, k, gitfrac, tid0):
         job("push", tr, **({"via": via_of(h)} if tr == "porcelain" else {}))
         job("fetch", ["local", "localpack", "tcp", "gitserver"][(h >> 25) % 4],
             caps={"mode": c["mode"]} if (h >> 25) % 4 >= 2 else None)
+        # the commands that decide themselves what to ask for (determine_wants_all looks into the receiver's store)
+        if (h >> 28) % 2 == 0:
+            job("fetch", "porcelain", via=via_of(h))
         return out
     if c["forged"]:
         # a request for an object that is not an advertised value, to every dulwich server
